@@ -40,6 +40,25 @@ CHECKS["C02"] = dict(
     technique="TLA+ grammar/derivation model explored by TLC (BFS + simulation), parser observations validated by TLC",
     design="7/C02")
 
+CHECKS["C05"] = dict(
+    category="model_checking",
+    text="Programs derived by ShellGen.tla (exhaustive within the deviation budget + seeded simulation) are parsed, printed under "
+         "each of the 256 configurations enumerated by PrintRT.tla (TLC checks that the enumeration is the complete product), "
+         "re-parsed and projected; TLC validates every record with PrintRT!RoundTrip (nil error, whole text consumed, "
+         "Norm-equal skeletons, i.e. same commands, operators, words, parts, redirections and here-document bodies).",
+    note="Trusted: ShellSkel!Norm as the 'same program' relation, the projection, byte-identity pre-filter in the driver, TLC.",
+    technique="TLA+-generated programs x TLA+-enumerated configuration space, observations validated by TLC",
+    design="7/C05")
+CHECKS["C18"] = dict(
+    category="model_checking",
+    text="Same programs and configuration space as C05; per (program, configuration) the driver records idempotence of "
+         "print/parse/print, determinism of two prints, a complete dump of the tree before and after Fprint, and for every k "
+         "below the output length whether a writer failing after k bytes is reported; TLC validates every record (PrintRT!C18Holds).",
+    note="Trusted: harness/proj/dump.go shows every field (reflect, including unexported positions); writer faults are enumerated "
+         "for every 4th program under two configurations; TLC.",
+    technique="TLA+-generated programs x TLA+-enumerated configuration space, fault enumeration over writer positions, validated by TLC",
+    design="7/C18")
+
 NOT_APPLICABLE = {}
 
 ALL = ["C%02d" % i for i in range(1, 21)]
